@@ -211,6 +211,12 @@ type probe struct {
 	ID       uint16 `json:"protocol_id"`
 	Response bool   `json:"response_direction"`
 	Forced   bool   `json:"forced_instance"`
+	// History: what happens on the established connection before the probe
+	// ("" = nothing): client-stop, client-restart (Stop then Start) of the local
+	// initiator instance of HistID, or server-restart (the peer's Done makes the
+	// local responder instance of HistID restart itself).
+	History string `json:"history,omitempty"`
+	HistID  uint16 `json:"history_protocol_id,omitempty"`
 }
 
 func (p probe) dir() string {
@@ -317,7 +323,7 @@ func sink(ev protocol.VerifEvent) {
 		return
 	}
 	switch ev.Kind {
-	case "admit", "deliver":
+	case "admit", "deliver", "handled", "stop":
 	default:
 		return
 	}
@@ -607,8 +613,16 @@ func rawCase(c *core.Ctx, cfg config, pr probe) {
 		c.Inconclusive(fmt.Sprintf("%s: no instance of protocol %d to start", cfg, pr.ID))
 		return
 	}
+	if pr.History != "" {
+		if what := runHistory(cr.conn, peer, r, w, cfg, pr); what != "" {
+			teardown(w)
+			c.Inconclusive(fmt.Sprintf("%s history %s(%d): %s", cfg, pr.History, pr.HistID, what))
+			return
+		}
+		c.Count("histories_run", 1)
+	}
 	r.arm()
-	c.Journal("C17 raw %s probe id=%d %s forced=%v", cfg, pr.ID, pr.dir(), pr.Forced)
+	c.Journal("C17 raw %s probe id=%d %s forced=%v history=%s(%d)", cfg, pr.ID, pr.dir(), pr.Forced, pr.History, pr.HistID)
 	msg := payload(pr.ID, pr.Response, cfg)
 	if err := peer.SendSegment(rawpeer.Segment{Timestamp: 7, ProtocolID: pr.ID, Response: pr.Response, Payload: msg.Encode()}); err != nil {
 		teardown(w)
@@ -768,6 +782,27 @@ func judgeRaw(c *core.Ctx, cfg config, pr probe, sideEnabled, expectReach bool, 
 		}
 		return
 	}
+	if expectReach && pr.History != "" {
+		c.Count("judged_reachable_after_history", 1)
+		which := "another-protocol"
+		if pr.ID == pr.HistID {
+			which = "same-protocol-other-role"
+			if (pr.History == "server-restart" && !pr.Response) || (pr.History == "client-restart" && pr.Response) {
+				which = "restarted-instance"
+			}
+		}
+		switch {
+		case obs.Admit == 0:
+			vio(fmt.Sprintf("C17:history:%s:unreachable:%s:%s", pr.History, which, side),
+				fmt.Sprintf("after %s of protocol %d the still enabled protocol %d (local %s role) is no longer reachable: a well-formed first message did not reach a protocol instance", pr.History, pr.HistID, pr.ID, side))
+		case obs.Err != "" && !obs.Sentinel && pr.ID != 10 && strings.Contains(obs.Err, "unknown protocol"):
+			vio(fmt.Sprintf("C17:history:%s:unknown-protocol-error:%s", pr.History, side),
+				fmt.Sprintf("after %s of protocol %d a message for enabled protocol %d ended the connection with %q", pr.History, pr.HistID, pr.ID, obs.Err))
+		default:
+			c.Count("reached_after_history", 1)
+		}
+		return
+	}
 	if expectReach {
 		c.Count("judged_reachable", 1)
 		switch {
@@ -838,6 +873,7 @@ func run(c *core.Ctx) {
 			}
 		}
 	}
+	jobs = append(jobs, historyJobs(c)...)
 	c.Note("cases_raw", len(jobs))
 	workers := runtime.GOMAXPROCS(0)
 	if workers > 16 {
@@ -858,7 +894,7 @@ func run(c *core.Ctx) {
 		}
 	})
 	c.SetExhaustive()
-	for _, k := range []string{"refused_wrong_direction", "reached", "refused_unknown_protocol", "judged_peer_sharing_off", "pair_reached"} {
+	for _, k := range []string{"refused_wrong_direction", "reached", "refused_unknown_protocol", "judged_peer_sharing_off", "pair_reached", "reached_after_history", "pair_reached_after_history"} {
 		if c.Counter(k) == 0 {
 			runInconclusive(c, "the run never observed the outcome "+k)
 		}
